@@ -534,7 +534,9 @@ pub fn exec_step(w: &mut World, ctx: &mut Ctx, st: &Step) -> StepResult {
             let lib_targets = to_lib_set(&targets);
             let act = obscure_action(action);
             let what = format!("elide_{}_set_with_action({:?}, {} targets)", if revealing { "revealing" } else { "removing" }, action, targets.len());
-            let env = lib!(what, if revealing { w.docs[d].env.elide_revealing_set_with_action(&lib_targets, &act) } else { w.docs[d].env.elide_removing_set_with_action(&lib_targets, &act) });
+            let _ = (&lib_targets, &act);
+            let entry = a4 >> 8; // which of the twelve public entry points carries the request
+            let env = lib!(what, elide_via(&w.docs[d].env, &targets, revealing, action, entry));
             let m = w.docs[d].m.obscure_set(&targets, revealing, action);
             let ind = w.docs[d].independent;
             if w.docs[d].m.has_obscured() {
